@@ -1379,6 +1379,31 @@ pub(crate) mod verif_probe {
                     json!({"gets": gets})
                 }))
             }
+            "admin_pause_resume" => {
+                // two registered pools (db1/u1, db2/u2) with given pause states; the admin commands through the real handle_admin
+                let rt = tokio::runtime::Builder::new_multi_thread().worker_threads(2).enable_all().build().unwrap();
+                let v = v.clone();
+                Some(rt.block_on(async move {
+                    let mut pools = HashMap::new();
+                    let mut mine = vec![];
+                    for (i, (db, us)) in [("db1", "u1"), ("db2", "u2")].iter().enumerate() {
+                        let (pool, _) = bare_pool(&json!(["primary"]), 60);
+                        if v["before"][i].as_bool().unwrap_or(false) { pool.pause(); }
+                        mine.push(pool.clone());
+                        pools.insert(PoolIdentifier::new(db, us), pool);
+                    }
+                    POOLS.store(Arc::new(pools));
+                    let csm: ClientServerMap = Arc::new(Mutex::new(HashMap::new()));
+                    let mut replies = vec![];
+                    for q in v["commands"].as_array().unwrap() {
+                        let mut out: Vec<u8> = vec![];
+                        let msg = simple_query(q.as_str().unwrap());
+                        let r = crate::admin::handle_admin(&mut out, msg, csm.clone()).await;
+                        replies.push(json!({"ok": r.is_ok(), "first": out.first().map(|c| (*c as char).to_string())}));
+                    }
+                    json!({"commands": v["commands"], "want": v["want"], "paused_after": mine.iter().map(|p| p.paused()).collect::<Vec<bool>>(), "replies": replies})
+                }))
+            }
             "plugin_resolution" => {
                 // general [plugins]: table_access DISABLED (over general_t); pool "own": a block of its own, table_access ENABLED over own_t; pool "plain": none
                 let rt = tokio::runtime::Builder::new_multi_thread().worker_threads(2).enable_all().build().unwrap();
